@@ -381,8 +381,18 @@ class Oracle:
                 k["parse"] and k["sigok"] and (int(k["nvb"]) <= 0 or now >= int(k["nvb"]) * NS)
                 and now <= int(k["nva"]) * NS for k in keys)
             want_time = jwt_time_ok(c["cp"], now)
+            if accepted and not keys:
+                return ("jwt-rs:accepted-unknown-key-id",
+                        "token accepted although its header names key id %r, which no key of the identity has"
+                        % txt(kid).decode("latin1"))
             if accepted and not key_ok:
-                return "jwt-rs:accepted-without-valid-key", "token accepted though no valid key of the card signs it"
+                return ("jwt-rs:accepted-without-valid-key",
+                        "token accepted though the key its header names does not verify it or is not valid then")
+            if (mu["class"] == "kidmatrix" and not accepted and want_time and keys and keys[0]["parse"]
+                    and keys[0]["sigok"] and keys[0]["type"] == "7373682d727361"
+                    and (int(keys[0]["nvb"]) <= 0 or now >= int(keys[0]["nvb"]) * NS)
+                    and now <= int(keys[0]["nva"]) * NS):
+                return "jwt-rs:named-key-rejected", "token signed by the valid key its header names was rejected"
             if accepted and not want_time:
                 return "jwt-rs:accepted-outside-time", "RS256 token accepted outside its time window"
             if accepted and op == "selfverify":
